@@ -49,9 +49,28 @@ var (
 func crdName(kind string) string { return strings.ToLower(kind) + "s.ex.org" }
 
 // Image contents. A = {X(a), Y}; B variants.
-func streamA() []byte {
-	return pkgh.Stream(pkgh.MetaYAML("Provider", "p", ""), pkgh.CRDYAML("ex.org", "KX", "a"), pkgh.CRDYAML("ex.org", "KY", "a"))
+func streamA(variant string) []byte {
+	docs := []string{pkgh.MetaYAML("Provider", "p", ""), pkgh.CRDYAML("ex.org", "KX", "a"), pkgh.CRDYAML("ex.org", "KY", "a")}
+	if variant == "twin-names" {
+		docs = append(docs, twinDocs()...)
+	}
+	return pkgh.Stream(docs...)
 }
+
+// Variant twin-names: both images also hold two objects that differ in
+// nothing but their kind (same API version, same name) - a provider's
+// mutating and validating webhook configurations.
+// (The establisher names a provider's webhook configurations after the
+// package, whatever their name in the image.)
+var twinNames = []string{"MutatingWebhookConfiguration/crossplane-provider-p", "ValidatingWebhookConfiguration/crossplane-provider-p"}
+
+func twinDocs() []string {
+	return []string{pkgh.WebhookYAML("MutatingWebhookConfiguration", "p-hooks"), pkgh.WebhookYAML("ValidatingWebhookConfiguration", "p-hooks")}
+}
+
+var whGKs = []schema.GroupKind{{Group: "admissionregistration.k8s.io", Kind: "MutatingWebhookConfiguration"}, {Group: "admissionregistration.k8s.io", Kind: "ValidatingWebhookConfiguration"}}
+
+func isPkgObjectGK(gk schema.GroupKind) bool { return gk == crdGK || gk == whGKs[0] || gk == whGKs[1] }
 
 func streamB(variant string) ([]byte, []string) {
 	docs := []string{pkgh.MetaYAML("Provider", "p", ""), pkgh.CRDYAML("ex.org", "KX", "b"), pkgh.CRDYAML("ex.org", "KZ", "b")}
@@ -69,6 +88,9 @@ func streamB(variant string) ([]byte, []string) {
 	case "uncontrolled":
 		docs = append(docs, pkgh.CRDYAML("ex.org", "KU", "b"))
 		names = append(names, crdName("KU"))
+	case "twin-names":
+		docs = append(docs, twinDocs()...)
+		names = append(names, twinNames...)
 	}
 	return pkgh.Stream(docs...), names
 }
@@ -81,7 +103,7 @@ func images(variant string, bStream []byte) map[string]regv1.Image {
 		return m
 	}
 	m := map[string]regv1.Image{
-		"A": pkgh.BuildImage(streamA(), pkgh.AnnotatedBase, nil),
+		"A": pkgh.BuildImage(streamA(variant), pkgh.AnnotatedBase, nil),
 		"B": pkgh.BuildImage(bStream, pkgh.AnnotatedBase, nil),
 		"Q": pkgh.BuildImage(pkgh.Stream(pkgh.MetaYAML("Provider", "q", ""), pkgh.CRDYAML("ex.org", "KW", "q")), pkgh.AnnotatedBase, nil),
 	}
@@ -209,7 +231,7 @@ func (w *world) newRevReconciler() *revRec {
 }
 
 func (w *world) onWrite(rec *simkube.WriteRecord) {
-	if rec.Call.Client != "rev" || rec.Call.Key.GK() != crdGK {
+	if rec.Call.Client != "rev" || !isPkgObjectGK(rec.Call.Key.GK()) {
 		return
 	}
 	// E2a: only an active revision creates objects.
@@ -235,6 +257,12 @@ func crds(s *simkube.Store) map[string]*unstructured.Unstructured {
 	out := map[string]*unstructured.Unstructured{}
 	for _, u := range s.All(crdGK) {
 		out[u.GetName()] = u
+	}
+	// (Other package objects are keyed Kind/name.)
+	for _, gk := range whGKs {
+		for _, u := range s.All(gk) {
+			out[gk.Kind+"/"+u.GetName()] = u
+		}
 	}
 	return out
 }
@@ -469,7 +497,7 @@ func body(r *explore.Run, rep *report.R, sc string, variant string, depth int) {
 			var realWrites []string
 			faultOnRealWrite := false
 			for _, wr := range s.Log[logStart:] {
-				if wr.Call.Key.GK() != crdGK || wr.Call.Client != "rev" {
+				if !isPkgObjectGK(wr.Call.Key.GK()) || wr.Call.Client != "rev" {
 					continue
 				}
 				if wr.Effective && !wr.Call.DryRun {
@@ -480,7 +508,7 @@ func body(r *explore.Run, rep *report.R, sc string, variant string, depth int) {
 				}
 			}
 			for _, f := range faults {
-				if strings.Contains(f, "error-after") && !strings.Contains(f, "(dry)") && strings.Contains(f, "CustomResourceDefinition") {
+				if strings.Contains(f, "error-after") && !strings.Contains(f, "(dry)") && (strings.Contains(f, "CustomResourceDefinition") || strings.Contains(f, "WebhookConfiguration")) {
 					faultOnRealWrite = true
 				}
 			}
@@ -511,6 +539,9 @@ func body(r *explore.Run, rep *report.R, sc string, variant string, depth int) {
 				r.Failf("E1/partial-establish/"+variant, "revision %s failed to establish its objects (err %v) yet performed %v", name, out.Err, realWrites)
 			}
 			want := []string{crdName("KX"), crdName("KY")}
+			if variant == "twin-names" {
+				want = append(want, twinNames...)
+			}
 			if ev == "rev-B" {
 				want = w.bNames
 			}
@@ -601,12 +632,12 @@ func describeCRD(c *unstructured.Unstructured) string {
 func TestCheck(t *testing.T) {
 	rep := report.New("C16", "fault_enumeration")
 	rep.Meta(
-		"Executions are event sequences of bounded depth, starting from package p with revision A (objects X,Y) established, over {package-manager reconcile, revision-A reconcile, revision-B reconcile, source edit to v2 / v1, garbage collector run, deletion of inactive revisions}; every API call (reads included) of a revision reconcile is a fault point {error-before, conflict, error-after}; instead of a fault, a third party may act once just before a call that addresses a package object (it deletes the object, or creates it under another owner's control if it does not exist), or the package manager may deactivate the revision after the reconciler has read it and before its first write; <= 1 deviation per sequence. Image B variants: plain upgrade {X',Z}; + W controlled by a revision of another package q; + an object the API server rejects; + F controlled by a foreign owner; + U pre-existing and uncontrolled. DFS with state-hash pruning ranked by remaining depth. Non-trivial: sequences that reconcile revision B or inject a fault.",
+		"Executions are event sequences of bounded depth, starting from package p with revision A (objects X,Y) established, over {package-manager reconcile, revision-A reconcile, revision-B reconcile, source edit to v2 / v1, garbage collector run, deletion of inactive revisions}; every API call (reads included) of a revision reconcile is a fault point {error-before, conflict, error-after}; instead of a fault, a third party may act once just before a call that addresses a package object (it deletes the object, or creates it under another owner's control if it does not exist), or the package manager may deactivate the revision after the reconciler has read it and before its first write; <= 1 deviation per sequence. Image B variants: plain upgrade {X',Z}; + W controlled by a revision of another package q; + an object the API server rejects; + F controlled by a foreign owner; + U pre-existing and uncontrolled; both images with two objects that differ only in kind (webhook configurations of one name). DFS with state-hash pruning ranked by remaining depth. Non-trivial: sequences that reconcile revision B or inject a fault.",
 		[]string{"simkube models the API server incl. dry-run and an admission predicate that answers identically for dry-run and real writes", "establisher concurrency 1 (its workers run one at a time); crash outcomes are not injected because the establisher issues calls from worker goroutines", "the Kubernetes garbage collector is modelled as 'delete objects all of whose owners are gone', run to a fixpoint as one event"},
 		[]string{"simkube", "go-containerregistry (real image construction)", "afero in-memory filesystem for the package cache"},
 	)
 	depth := 5
-	variants := []string{"upgrade", "conflict-q", "rejected", "rejected-existing", "foreign", "uncontrolled", "b-inactive-owner"}
+	variants := []string{"upgrade", "conflict-q", "rejected", "rejected-existing", "foreign", "uncontrolled", "b-inactive-owner", "twin-names"}
 	if report.Thorough() {
 		depth = 7
 	}
